@@ -184,7 +184,7 @@ func (e *Engine) access(fc *fnCtx, st *state, in ssa.Instruction, av AV, refType
 		if ev.exempt == "" && atomicOp {
 			if h.mode < ev.need {
 				fc.addDiag(localDiag{rule: "AT3", object: "atomic " + slot, instr: in,
-					reason: "a state slot is accessed through sync/atomic without the instance lock (" + strings.TrimPrefix(what, "atomic:") + "): it is synchronised separately from the rest of the container's state, so operations that touch both are no longer atomic (not a data race)"})
+					reason: "a state slot is accessed through sync/atomic without the instance lock (" + strings.TrimPrefix(what, "atomic:") + "): it is synchronised separately from the rest of the container's state, so operations that touch both are no longer atomic; where other accesses to the slot are plain loads/stores under the lock, the atomic access is also unordered with them (a data race)"})
 			}
 			if h.mode >= R && !write {
 				if snaps == nil {
